@@ -457,7 +457,9 @@ PlanLine == [k |-> "plan", s |-> sd, f |-> [i \in 1..Len(fs) |-> FaultStr(sd, fs
 SeedLines(s) ==
   LET L == SeedTab[s].L   bs == Seeds[s].bytes   nsl == (Len(bs) + 1023) \div 1024 IN
   /\ CSVWrite("%1$s", <<ToJson([k |-> "seed", s |-> s, id |-> Seeds[s].id, size |-> L.size, synth |-> Seeds[s].synth, cls |-> L.cls, le |-> L.le,
-                                nrecs |-> Len(L.recs), nsf |-> Len(SeedTab[s].sf)])>>, IOEnv.OUT)
+                                nrecs |-> Len(L.recs), nsf |-> Len(SeedTab[s].sf),
+                                \* traits a walker witness of FaultWalk.tla can ask for
+                                traits |-> {IF L.phnum > 0 THEN "phtable" ELSE "no phtable", IF L.shnum > 0 THEN "shtable" ELSE "no shtable"}])>>, IOEnv.OUT)
   /\ (Seeds[s].synth => \A j \in 0..(nsl - 1) :
         CSVWrite("%1$s", <<ToJson([k |-> "bytes", s |-> s, at |-> 1024 * j, b |-> SubSeq(bs, 1024 * j + 1, MinN(Len(bs), 1024 * (j + 1)))])>>, IOEnv.OUT))
   /\ \A i \in 1..Len(SeedTab[s].sf) :
